@@ -63,3 +63,18 @@ package ippool
 //@   property C39
 //@   option safety off
 //@   ghost at call Update#1: check forall q ip.CIDR :: old(t.cidrs[q]) ==> q != cidr && !cidrWithin(q, cidr) && !cidrWithin(cidr, q)
+
+//@ -- C39 (last clause): "does this pool still have address blocks" asks about EVERY block whose CIDR parses - no
+//@ -- block is skipped for another reason - and answers true exactly when one of them starts inside the pool.
+//@ ghost c39Parsed int
+//@ ghost c39Asked int
+//@ ghost c39Any bool
+//@ func (*IPPoolController).blocksInPool
+//@   property C39
+//@   option safety off
+//@   option mathint
+//@   requires c39Parsed == 0 && c39Asked == 0 && !c39Any
+//@   ghost at call ParseCIDR: c39Parsed = (res2 == nil) ? c39Parsed + 1 : c39Parsed
+//@   ghost at call Contains: c39Asked = c39Asked + 1 ; c39Any = c39Any || res
+//@   ensures res == c39Any && c39Asked == c39Parsed
+//@   loop 1 invariant c39Asked == c39Parsed && !c39Any
